@@ -8,7 +8,11 @@ Spec: spec/Layout.tla (the representation rule: C layout of enums with a u8 tag,
 S->I: TLC enumerates the configuration space (route x types x position x value class): every boundary type of
       the depth <= 1 grammar (thorough: restricted depth 2) on the routes id / hecho (host function) / hmeth
       (method) / hgive / const / build (constructors, list literals) / buildf (accept, reject) / match / index
-      (`l.get(i)` on a list Rust built; lists of enums whose size hinges on the final rounding); seven-parameter
+      (`l.get(i)` on a list Rust built; lists of enums whose size hinges on the final rounding) / constm, consth
+      (the registered constant of every non-leaf type taken apart by the script / handed on to a registered
+      function) / lvec, lcollect, lpush, larray (a list put together on the Rust side by List::from(Vec), collect(),
+      List::new + push, List::from([..]), read back with to_vec and iterated by the script; element types: every
+      Option whose Rust type and mirror have the same size and alignment but another encoding); seven-parameter
       vectors with the type under test at every position 1..7 and with 2..6 slot-occupying parameters (Rust ->
       script `pick`, script -> host function `hpick`, zero-sized parameters at every position); context
       structs in every declared field order.  For every type and value TLC also checks the layout invariants
@@ -31,9 +35,12 @@ from vlib import Evidence, Verdicts, run_tlc, require_tlc_ok
 
 PID = "C05"
 PARTS = ["types", "pick", "hpick", "ctx", "layout"]
-ROUTES = ["id", "hecho", "hmeth", "hgive", "const", "ctx", "build", "buildf", "match", "index", "pick", "hpick"]
+CONST_ROUTES = ["const", "constm", "consth"]              # registered constant: returned / taken apart / handed on
+LIST_ROUTES = ["lvec", "lcollect", "lpush", "larray"]     # construction routes of a list on the Rust side
+ROUTES = (["id", "hecho", "hmeth", "hgive", "const", "ctx", "build", "buildf", "match", "index", "pick", "hpick"] +
+          CONST_ROUTES[1:] + LIST_ROUTES)
 CROSSINGS = ["rust_arg", "rust_ret", "host_arg", "host_ret", "ctx", "const"]
-SCRIPT_OPS = ["construct", "match", "select", "index"]
+SCRIPT_OPS = ["construct", "match", "select", "index", "rconstruct", "rread"]
 LEAVES = ["bool", "u8", "u16", "u32", "u64", "i8", "i16", "i32", "i64", "f32", "f64", "char", "Asn", "IpAddr", "Prefix",
           "String", "()", "Z0", "C1", "T24"]
 CTORS = ["Option", "List", "Result", "Verdict"]
@@ -254,6 +261,64 @@ def count_cfg(c, stats):
     for s in syms:
         stats["symbols"][s] = stats["symbols"].get(s, 0) + 1
     stats["types"].add(term_id(c["vec"][c["pos"] - 1]))
+    if c["route"] in CONST_ROUTES + LIST_ROUTES:
+        stats["family"].append((c["route"], c["vec"][0], c["vals"][0]))
+
+
+def contains(t, heads):
+    return t[0] in heads or any(contains(x, heads) for x in t[1:])
+
+
+def rust_side(stats):
+    """what rustc says about the Rust side of every table type (measured by the harness): id -> layout event"""
+    if "rust_side" not in stats:
+        r = vlib.run_bin("c05", ["--layouts"], timeout=300)
+        if r.outcome != "returned":
+            raise vlib.ToolError("c05 --layouts failed: %s %s" % (r.outcome, r.err[-300:]))
+        evs = [json.loads(l) for l in r.out.splitlines() if l.strip()]
+        stats["rust_side"] = {term_id(e["ty"]): e for e in evs}
+    return stats["rust_side"]
+
+
+def same_shape(e):
+    """the Rust type and its mirror are different types of the same size and alignment"""
+    return (not e["own_mirror"]) and e["rust_size"] == e["size"] and e["rust_align"] == e["align"] and e["size"] > 0
+
+
+def family_guard(stats):
+    """the registered-constant direction and the Rust-side construction routes must really occur, on the types where
+    the Rust representation and the Roto representation differ, with values that tell the two apart"""
+    rs = rust_side(stats)
+    fam = {"const_classes": {}, "construction_classes": {}}
+    for route in CONST_ROUTES:
+        cs = [(t, v) for (r, t, v) in stats["family"] if r == route]
+        for h in ("Option", "Result", "Verdict", "List"):
+            n = sum(1 for t, v in cs if contains(t, (h,)))
+            fam["const_classes"]["%s/%s" % (route, h)] = n
+            if not n:
+                raise vlib.ToolError("no registered constant of a type with %s on route %s (vacuous)" % (h, route))
+        diff = [(t, v) for t, v in cs if not rs[term_id(t)]["own_mirror"]]
+        shape = [(t, v) for t, v in diff if same_shape(rs[term_id(t)])]
+        fam["const_classes"][route + "/mirror-differs"] = len(diff)
+        fam["const_classes"][route + "/mirror-differs-same-size-and-alignment"] = len(shape)
+        fam["const_classes"][route + "/types"] = len({term_id(t) for t, v in cs})
+        for k in ("Some", "None"):
+            if not any(v["k"] == k for t, v in shape):
+                raise vlib.ToolError("no registered constant %s of an Option type whose mirror has the same size and "
+                                     "alignment on route %s (vacuous)" % (k, route))
+    for route in LIST_ROUTES:
+        cs = [(t, v) for (r, t, v) in stats["family"] if r == route]
+        shape = [(t, v) for t, v in cs if same_shape(rs[term_id(t[1])])]
+        both = [(t, v) for t, v in shape if {"Some", "None"} <= {e["k"] for e in v["e"]}]
+        ctrl = [(t, v) for t, v in cs if not same_shape(rs[term_id(t[1])])]
+        fam["construction_classes"][route] = {
+            "lists": len(cs), "element_types": len({term_id(t) for t, v in cs}),
+            "element_types_same_size_and_alignment_other_encoding": len({term_id(t) for t, v in shape}),
+            "lists_of_those_with_some_and_none": len(both), "controls": len(ctrl)}
+        if len({term_id(t) for t, v in both}) < 3 or not ctrl:
+            raise vlib.ToolError("construction route %s: fewer than 3 element types whose Rust type and mirror have the same "
+                                 "size and alignment with a list holding Some and None, or no control (vacuous)" % route)
+    stats["family_classes"] = fam
 
 
 def vacuity_guard(stats, depth):
@@ -295,6 +360,7 @@ def spec_to_impl(tier, ev, verd, stats):
     for c in cfgs:
         count_cfg(c, stats)
     vacuity_guard(stats, depth)
+    family_guard(stats)
     results = execute(cfgs, "replay")
     ok = 0
     for c, res in zip(cfgs, results):
@@ -385,10 +451,11 @@ def random_configs(rng, n):
         if x < 0.6:
             e = tab[rng.choice(tys)]
             t = e["term"]
-            routes = (["id", "hecho", "hgive", "const"] + ([] if len(t) == 1 else ["build", "match"]) +
+            routes = (["id", "hecho", "hgive", "const"] + ([] if len(t) == 1 else ["build", "match", "constm", "consth"]) +
                       (["hmeth"] if len(t) == 1 and t != ["()"] else []) + (["buildf"] if t[0] == "Verdict" else []))
             if t[0] == "List":
                 routes.append("index")
+                routes.extend(LIST_ROUTES)
             r = rng.choice(routes)
             c = {"route": r, "vec": [t], "vals": [gen_value(rng, t)], "pos": 1, "k": rng.randrange(1, 4) if r == "index" else 1}
         elif x < 0.85:
@@ -445,7 +512,7 @@ def boundary_trace(tier, ev, verd, stats):
 
 def new_stats():
     return {"routes": {}, "hops": {}, "pick_pos": {}, "hpick_pos": {}, "ks": {}, "zst_args": {}, "ctx_pos": {},
-            "ctx_structs": set(), "symbols": {}, "types": set(), "tlc": {}, "observations": 0}
+            "ctx_structs": set(), "symbols": {}, "types": set(), "tlc": {}, "observations": 0, "family": []}
 
 
 def probe_exclusions(stats):
@@ -488,6 +555,7 @@ def run(tier):
     ev.extra["configurations_by_route"] = stats["routes"]
     ev.extra["hops_by_kind"] = stats["hops"]
     ev.extra["types_under_test"] = len(stats["types"])
+    ev.extra["registered_constant_and_construction_route_classes"] = stats.get("family_classes")
     ev.extra["types_under_test_mentioning"] = stats["symbols"]
     ev.extra["pick_position_counts"] = stats["pick_pos"]
     ev.extra["hpick_position_counts"] = stats["hpick_pos"]
@@ -510,6 +578,12 @@ def run(tier):
         "is decided by the final rounding of the union, and their controls), each alone and as the element type of a list built by "
         "the script / indexed by the script (543 types in quick); thorough: "
         "plus depth 2 over {u8,T24} (a binary constructor with at most one non-leaf argument) and 8 hand-picked nestings (650)",
+        "registered constants: returned (const), taken apart by the script (constm) and handed on to a registered function "
+        "(consth) for every non-leaf type; not compared in the script (`==` on enum / list operands is undocumented); "
+        "construction routes of a list on the Rust side (List::from(Vec), collect(), List::new + push, List::from([A; N]) with "
+        "N <= 16, read back with to_vec) for every list type of the run, element types: Option of each of the 13 leaves "
+        "without a niche (Rust type and mirror of the same size and alignment, measured by the harness), controls "
+        "Option[String], Option[bool], u32, Result[u32,u32], Result[u64,u8], Verdict[u32,u64]",
         "argument positions: seven-parameter vectors (an all-integer base and a mixed base) with the type under test (20 leaves + 9 "
         "compound types) at every position; other arities only as the one-parameter routes",
         "context fields: registered leaf types only ((), Option, List fields are refused or panic at compile time: recorded in "
